@@ -456,6 +456,36 @@ def _arith_spelling(chk):
         chk.ok('C12.spell', f'{n} abstract evaluations: 14 operators x integral operand pairs from -7..7, each operand spelled as int and as float - the four results are equal', count=n)
 
 
+def _integrality_sim(chk):
+    """primary: value_args_validate evaluated (E6l) on a one-parameter model {type number, integer} and numbers spelled both ways -> True when decided OK"""
+    from ..libsim import LibInterp
+    from ..absint import ADict, AList
+    mod = chk.repo.module('value')
+    func = mod.func('value_args_validate', 'C12.chk')
+    it = LibInterp(chk.repo, mod, 'C12.chk')
+    cases = [(2, True), (2.0, True), (-3, True), (-3.0, True), (0, True), (0.0, True), (1e15, True), (2.5, False), (-0.5, False), (1e-9, False)]
+    for constraint in ({}, {'gte': 0}, {'gte': -10, 'lte': 1e16}):
+        for v, integral in cases:
+            model = AList([ADict(dict({'name': 'x', 'type': 'number', 'integer': True}, **constraint))])
+            got = it.run(func, [model, AList([v])])
+            in_range = ('gte' not in constraint or v >= constraint['gte']) and ('lte' not in constraint or v <= constraint['lte'])
+            want_ok = integral and in_range
+            accepted = got[0] == 'value'
+            if got[0] == 'raise' and got[1] != 'ValueArgsError':
+                chk.bad('C12.chk', mod, 'value_args_validate', f'{v!r}: raises {got[1]}', f'validating the number {v!r} against an integer parameter raises {got[1]} instead of accepting / rejecting it', node=func)
+                return False
+            if accepted != want_ok:
+                chk.bad('C12.chk', mod, 'value_args_validate', f'integer parameter {constraint or ""}: {v!r} is {"accepted" if accepted else "rejected"}',
+                        f'value_args_validate {"accepts" if accepted else "rejects"} the number {v!r} for a parameter declared integer{" with " + str(constraint) if constraint else ""}: integrality is a '
+                        f'property of the value, so 2 and 2.0 are both accepted and 2.5 is rejected, whatever the host type', node=func)
+                return False
+            if accepted and not (isinstance(got[1], AList) and len(got[1].l) == 1 and got[1].l[0] == v and type(got[1].l[0]) is type(v)):
+                raise Unrecognised('C12.chk', f'value_args_validate returns {got[1]!r} for the argument {v!r}', mod.rel)
+    chk.ok('C12.chk', f'value_args_validate evaluated on {len(cases) * 3} (integer parameter, number) cases: integral numbers are accepted in both spellings (2 and 2.0), fractional ones rejected, '
+           f'range constraints applied to the value', count=len(cases) * 3)
+    return True
+
+
 def _integrality(chk):
     mod = chk.repo.module('value')
     func = mod.func('value_args_validate', 'C12.chk')
@@ -484,6 +514,25 @@ def _integrality(chk):
         raise Unrecognised('C12.chk', "the 'integer' constraint test (fn_arg.get('integer') and ...) was not found in value_args_validate", mod.rel)
 
 
+def _closure_of(repo, modname, fname):
+    mod = repo.module(modname)
+    seen, todo = set(), [fname]
+    while todo:
+        f = todo.pop()
+        if f in seen or f not in mod.funcs:
+            continue
+        seen.add(f)
+        for n in walk_no_nested(mod.funcs[f]):
+            if isinstance(n, ast.Name) and n.id in mod.funcs:
+                todo.append(n.id)
+            if isinstance(n, ast.Name) and n.id in mod.assigns:
+                for v in mod.assigns[n.id]:
+                    for x in ast.walk(v):
+                        if isinstance(x, ast.Name) and x.id in mod.funcs:
+                            todo.append(x.id)
+    return seen
+
+
 def _literals(chk):
     from .c02 import check_number_literals
     check_number_literals(chk, 'C12.lit')
@@ -503,7 +552,10 @@ def run(chk):
     chk.rule('C12.spell', 'index-taking array / string functions give the same result for the int and the float spelling of every number (abstract execution, E6l)', floor=1000)
     from .c15 import check_bounds
     chk.guard('C12.spell', check_bounds, chk, 'C12.spell', ('spelling',))
-    chk.guard('C12.chk', _integrality, chk)
+    if chk.guard('C12.chk', _integrality_sim, chk):
+        chk.advisory('C12.chk', _integrality, chk)
+    else:
+        chk.guard('C12.chk', _integrality, chk)
     chk.guard('C12.chk', _type_tests, chk)
     chk.guard('C12.spell', _arith_spelling, chk)
     chk.guard('C12.lit', _literals, chk)
@@ -513,8 +565,31 @@ def run(chk):
     chk.rule('C13.C', 'shared with C13: number clean-up')
     chk.rule('C14.S', 'shared with C14: substitutions on JSON text cannot alter strings')
     chk.rule('C14.N', 'shared with C14: integral floats are written without a fraction in every position of JSON text')
-    name = chk.guard('C13.D', c13.check_value_string, chk)
-    if name:
-        chk.guard('C13.C', c13.check_cleanup, chk, name)
+    sim = c13.report_value_string_sim(chk)
+    if sim is not None and not sim[1]:
+        name = chk.advisory('C13.D', c13.check_value_string, chk)
+        if name:
+            chk.advisory('C13.C', c13.check_cleanup, chk, name)
+        # value_string and its helpers were evaluated on 5 and 5.0, 100 and 100.0 ...: a one-spelling type test inside them is decided by that evaluation
+        vs_funcs = _closure_of(chk.repo, 'value', 'value_string')
+        keep = []
+        for u in chk.unrecognised:
+            if u['rule'] == 'C12.chk' and 'without a' in u['what'] and any(u['what'].startswith(f'value.{f}:') for f in vs_funcs):
+                chk.note(f"C12.chk: {u['what']} - decided by the evaluation of value_string on both spellings")
+            else:
+                keep.append(u)
+        chk.unrecognised[:] = keep
+    else:
+        name = chk.guard('C13.D', c13.check_value_string, chk)
+        if name:
+            chk.guard('C13.C', c13.check_cleanup, chk, name)
+    # the int / float spellings of indices, counts, sizes, indent, date components: the evaluations of the library against reference models run every number both ways
+    from . import c15, c16
+    chk.rule('C15.R', 'shared with C15: array / object / string functions evaluated with indices spelled as floats and as host ints against the reference models')
+    chk.guard('C15.R', c15.check_reference_sim, chk)
+    chk.rule('C16.M', 'shared with C16: datetimeNew evaluated with components spelled as host ints and as floats')
+    chk.guard('C16.M', c16.check_datetime_new_sim, chk)
+    chk.rule('C14.R', 'shared with C14: jsonStringify evaluated with the indent spelled as int and as float, integral floats inside values')
+    chk.guard('C14.R', c14.check_roundtrip_sim, chk)
     aware = chk.guard('C14.S', c14.check_substitutions, chk)
     chk.guard('C14.N', c14.check_number_cleanup, chk, aware or [])
